@@ -654,8 +654,14 @@ def run_gp_fit_twin(spec):
                         f"raised {type(e).__name__}: {e}"})
             break
         compared += L
-        if cont != outs[k:k + L]:
-            j = next(j for j in range(L) if cont[j] != outs[k + j])
+
+        def same(c1, c2):
+            # round-off of writing the surrogate's parameters into the state and back moves a model-based suggestion in
+            # its last digits; a searcher that continues differently (another fit / skip rhythm) is far outside this
+            return c1.keys() == c2.keys() and all(abs(c1[q] - c2[q]) <= 1e-7 * max(1.0, abs(c1[q])) for q in c1)
+
+        if not all(same(cont[j], outs[k + j]) for j in range(L)):
+            j = next(j for j in range(L) if not same(cont[j], outs[k + j]))
             mon.append({"signature": "c16:gp-fifo-model-based-clone-diverges",
                         "what": f"GPFIFOSearcher(opt_skip_period={spec['skip_period']}, opt_skip_init_length={spec['skip_init']}) snapshot after "
                                 f"{k} finished trials: suggestion {k + j} of the restored searcher is {cont[j]}, the original gave {outs[k + j]}",
